@@ -84,11 +84,70 @@ func c11EverySuccessPathPasses(fn *ssa.Function, passes func(ssa.Instruction) bo
 			v := rr[len(rr)-1]
 			cut = func(from *ssa.BasicBlock, succIdx int) bool { return c11EdgeMakesNonNil(from, succIdx, v) }
 		}
+		cut0, r := cut, r
+		cut = func(from *ssa.BasicBlock, succIdx int) bool {
+			return (cut0 != nil && cut0(from, succIdx)) || c11ChainedErrEdge(from, succIdx, r)
+		}
 		if eng.ReachFromEntry(fn, eng.PathQuery{Target: func(i ssa.Instruction) bool { return i == ssa.Instruction(r) }, Avoid: passes, BlockEdge: cut}) != nil {
 			return r
 		}
 	}
 	return nil
+}
+
+// c11ChainedErrEdge recognises the chained-error idiom
+//
+//	err := a(); if err == nil { err = b() }; if err != nil { return err }; …; return nil
+//
+// The edge from → B (= from.Succs[succIdx]) carries a value known non-nil on that edge into a
+// phi of B, B branches on that phi being nil, and the return r under consideration cannot be
+// reached from B's non-nil successor: every path over this edge continues on the non-nil side,
+// so no path over it reaches r and the edge can be cut for r (the path "a failed, b skipped,
+// success returned" is infeasible).
+func c11ChainedErrEdge(from *ssa.BasicBlock, succIdx int, r *ssa.Return) bool {
+	if succIdx < 0 || succIdx >= len(from.Succs) {
+		return false
+	}
+	b := from.Succs[succIdx]
+	if len(b.Succs) != 2 {
+		return false
+	}
+	pi, n := -1, 0
+	for i, p := range b.Preds {
+		if p == from {
+			pi, n = i, n+1
+		}
+	}
+	if n != 1 {
+		return false
+	}
+	isNonNilOn := func(blk *ssa.BasicBlock, k int, x ssa.Value) bool {
+		for _, rel := range eng.EdgeRels(blk, k) {
+			if rel.Op == token.NEQ && ((rel.X == x && eng.IsNilConst(rel.Y)) || (rel.Y == x && eng.IsNilConst(rel.X))) {
+				return true
+			}
+		}
+		return false
+	}
+	for _, ins := range b.Instrs {
+		phi, ok := ins.(*ssa.Phi)
+		if !ok {
+			break
+		}
+		if pi >= len(phi.Edges) || eng.IsNilConst(phi.Edges[pi]) || !isNonNilOn(from, succIdx, phi.Edges[pi]) {
+			continue
+		}
+		for k := 0; k < 2; k++ {
+			if !isNonNilOn(b, k, phi) {
+				continue
+			}
+			// the other successor is the nil side; r must be unreachable from the non-nil side
+			if eng.ReachFromBlock(b.Succs[k], eng.PathQuery{Target: func(i ssa.Instruction) bool { return i == ssa.Instruction(r) }}) == nil {
+				return true
+			}
+		}
+	}
+	return false
 }
 
 // c11EdgeMakesNonNil reports whether taking the CFG edge from → from.Succs[succIdx] establishes
